@@ -14,7 +14,8 @@ type Expr struct {
 	Tok  string // operator / identifier / literal
 	Args []*Expr
 	Vars []QVar  // quant
-	Trig []*Expr // quant triggers
+	Trig []*Expr // quant triggers (all groups, flattened)
+	TrigGroups [][]*Expr // one entry per {...} group: alternative patterns
 	Pos  int
 }
 
@@ -254,16 +255,19 @@ func (p *exprParser) parseUnary() (*Expr, error) {
 			return nil, err
 		}
 		for p.accept("{") {
+			var grp []*Expr
 			for {
 				tr, err := p.parseExpr(0)
 				if err != nil {
 					return nil, err
 				}
 				q.Trig = append(q.Trig, tr)
+				grp = append(grp, tr)
 				if !p.accept(",") {
 					break
 				}
 			}
+			q.TrigGroups = append(q.TrigGroups, grp)
 			if err := p.expect("}"); err != nil {
 				return nil, err
 			}
